@@ -38,9 +38,11 @@ import KafkaVerif.Lemmas.Xerial
 import KafkaVerif.Lemmas.Pool
 import KafkaVerif.Lemmas.XerialReader
 import KafkaVerif.Lemmas.XerialIO
+import KafkaVerif.Lemmas.XerialCut
 import KafkaVerif.Gen.RecordConsts
 import KafkaVerif.Gen.CodecClose
 import KafkaVerif.Gen.CodecPools
+import KafkaVerif.Gen.XerialReset
 
 namespace KV.Props.C16
 open KV KV.RW KV.Model.Xerial KV.Spec.Xerial
@@ -244,6 +246,39 @@ theorem reads_reference_streams_any_blocks (c : Codec) (hg : Good c) (blocks : L
   have := readAllWith_rep_any c hg ks _ [] blocks hks (by simpa using hlen) hsm hrep
   simpa using this
 
+/-- **streams that end early** (the source is cut, or fails, anywhere after the 16-byte header): whatever buffer sizes
+the consumer uses, everything the reader hands out before it reports the end or an error is a PREFIX of the payload —
+never other data.  (`readAllOut`: the bytes delivered until the first non-data answer.)  Proved by simulation
+(`Lemmas/XerialCut`): on `rest` and on `rest ++ t` the framed reader makes the same data steps. -/
+theorem truncated_stream_prefix (c : Codec) (hg : Good c) (blocks : List Bytes)
+    (hsm : ∀ b ∈ blocks, (c.enc b).length < 256 ^ 4)
+    (ks : List Nat) (hks : ∀ k ∈ ks, 1 ≤ k) (hlen : blocks.flatten.length < ks.length) (n : Nat) (hn : 16 ≤ n) :
+    readAllOut c (newReader ((frame (blocks.map c.enc)).take n)) ks <+: blocks.flatten := by
+  have hl : 16 ≤ (frame (blocks.map c.enc)).length := by
+    simp only [frame, List.length_append]
+    have : Spec.Xerial.header.length = 16 := by decide
+    omega
+  have hfr : Framed (newReader ((frame (blocks.map c.enc)).take n)) := by
+    refine .inl ⟨rfl, ?_, ?_⟩
+    · simp only [newReader, List.length_take]; omega
+    · simp only [newReader, List.take_take]
+      rw [show min 8 n = 8 from by omega]
+      exact header_take8 _
+  have hp := readAllOut_prefix c ((frame (blocks.map c.enc)).drop n) ks _ hfr
+  have he : ext (newReader ((frame (blocks.map c.enc)).take n)) ((frame (blocks.map c.enc)).drop n) =
+      newReader (frame (blocks.map c.enc)) := by
+    simp only [ext, newReader, List.take_append_drop]
+  rw [he, readAllOut_of_readAllWith c ks _ _ (reads_reference_streams_any_blocks c hg blocks hsm ks hks hlen)] at hp
+  exact hp
+
+open Model.Source in
+/-- the same for EVERY behaviour of the underlying io.Reader while it delivers the `n` bytes it has -/
+theorem truncated_stream_prefix_any_source (c : Codec) (hg : Good c) (blocks : List Bytes)
+    (hsm : ∀ b ∈ blocks, (c.enc b).length < 256 ^ 4) (script : List Ans)
+    (ks : List Nat) (hks : ∀ k ∈ ks, 1 ≤ k) (hlen : blocks.flatten.length < ks.length) (n : Nat) (hn : 16 ≤ n) :
+    readAllOutIO c ⟨newReader ((frame (blocks.map c.enc)).take n), script⟩ ks <+: blocks.flatten := by
+  rw [readAllOutIO_refines]; exact truncated_stream_prefix c hg blocks hsm ks hks hlen n hn
+
 /-- FULL round trip, framed: every non-empty payload, every split into Write calls, every sequence of Read
 buffer sizes: what the reader returns is the payload -/
 theorem xerial_roundtrip (c : Codec) (hg : Good c) (henc : ∀ b, b.length ≤ 32768 → (c.enc b).length < 256 ^ 4)
@@ -298,6 +333,20 @@ theorem xerial_roundtrip_unframed (c : Codec) (hg : Good c) (chunks : List Bytes
 the recycled object was left in (mid-stream, after an error, after EOF), Reset gives the state of a new one. -/
 theorem reset_fresh (s : Bytes) (framed : Bool) (r : Reader) (w : Writer) :
     resetReader s r = newReader s ∧ resetWriter framed w = newWriter framed := ⟨rfl, rfl⟩
+
+/-- the premise of `reset_fresh` — the model's `resetReader` / `resetWriter` forget the WHOLE previous state — read off the
+source on every run (go/ast, `go/extract resetfields` → Gen/XerialReset): every field of `xerialReader` / `xerialWriter`
+that some method may change (assigned, or handed to a call as a slice) is assigned by `Reset`, or by `Codec.NewReader` /
+`NewWriter` after the pool Get on every path (`framed`, `encode`: the pool is shared by all snappy Codec values), or is
+scratch that is always filled right before it is used (the writer's `header`).  A Reset that stops clearing a field,
+or a new mutable field that Reset does not know, breaks this theorem. -/
+theorem gen_reset_complete :
+    (∀ f ∈ Gen.XerialReset.readerMutated, f ∈ Gen.XerialReset.readerReset ∨ f ∈ Gen.XerialReset.readerCtor ∨
+      f ∈ Gen.XerialReset.readerScratch) ∧
+    (∀ f ∈ Gen.XerialReset.writerMutated, f ∈ Gen.XerialReset.writerReset ∨ f ∈ Gen.XerialReset.writerCtor ∨
+      f ∈ Gen.XerialReset.writerScratch) ∧
+    (∀ f ∈ Gen.XerialReset.readerMutated, f ∈ Gen.XerialReset.readerFields) ∧
+    (∀ f ∈ Gen.XerialReset.writerMutated, f ∈ Gen.XerialReset.writerFields) := by decide
 
 /-- the model's block capacity and flush threshold are the constants in compress/snappy/xerial.go now
 (regenerated by `go/extract records` on every run) -/
